@@ -15,6 +15,11 @@ Case = {'ops': [...], optional 'auto': true, 'friends0': [u...], 'offline': 'dro
                                              '+' do not yield at all (next op is issued back-to-back)
     ['gate', u, send_outcome, resp_outcome, m]   release whatever network call u's worker is parked in
                                              (resp_outcome 'silence' = let 10 s pass instead)
+                                             send_outcome 'failclose' (worker parked in a write): the write fails the way a
+                                             write on a broken socket does — the connection reports CLOSED from INSIDE the
+                                             failing write (`Connection._send` -> `disconnect(WRITE_ERROR)`: the CLOSED
+                                             listeners, the tracking manager's among them, run in the worker's own task), then
+                                             the write raises. Model: `close`
     ['adv', seconds]                      virtual time passes
     ['fire', u]                           virtual time passes up to the instant u's pending retry is due (everything due
                                           earlier happens first) and the retry timer fires — but the loop iteration in
@@ -24,6 +29,14 @@ Case = {'ops': [...], optional 'auto': true, 'friends0': [u...], 'offline': 'dro
     ['close'] | ['close', reason]         ConnectionStateChangedEvent(ServerConnection, CLOSED[, CloseReason[reason]]), then
                                           (what the client's own CLOSED listener does) SessionDestroyedEvent when a session
                                           exists
+    ['close', reason|None, [[track|untrack, u, flags], …]]
+                                          the same, and the application's own listener of ConnectionStateChangedEvent
+                                          (registered after the managers, as an application's is) makes these calls when it is
+                                          told CLOSED: back-to-back in the very loop iteration in which the tracking manager's
+                                          CLOSED listener returned — "everything is dropped" is looked at there, and the calls
+                                          belong to the history after the close (model: `close`, then the calls with `+`).
+                                          When the close finds a tracking write in flight (a worker parked in its send) the
+                                          calls are made after the loop has settled instead (see `close`)
   the owners of the reasons (a case that uses any of them runs with the real TransferManager):
     ['login']                             SessionInitializedEvent (the user manager tracks its own name and the
                                           friends list, the transfer manager requests a cycle)
@@ -134,6 +147,8 @@ class _Run:
         self.auto = bool(case.get('auto'))
         self.offline_mode = case.get('offline', 'drop')
         self.peer_hang = case.get('peer') == 'hang'
+        self.defer = case.get('defer', True) is not False   # False: only the witness of the known finding (see `close`)
+        self.undeferred = False                        # calls were made inside a CLOSED raised by / during a tracking write
         self.world = _is_world(case)
         self.settings = Settings(credentials={'username': ME, 'password': 'pw'})
         for u in case.get('friends0', []):
@@ -156,6 +171,13 @@ class _Run:
             from aioslsk.events import TransferRemovedEvent
             self._rm_listener = self._on_transfer_removed
             self.bus.register(TransferRemovedEvent, self._rm_listener)
+        # the application's own listener of the connection state, registered after the managers' (same priority: called
+        # after them, in the same step in which the last of them returned)
+        from aioslsk.events import ConnectionStateChangedEvent
+        self._close_calls = None                       # calls this listener makes when it is told CLOSED (`close` with calls)
+        self._epoch_closed = False
+        self._conn_listener = self._on_conn_state
+        self.bus.register(ConnectionStateChangedEvent, self._conn_listener)
         self.unsettled = False                         # something may be runnable that has not run (last op had + or !)
         self.fire_pending = False                      # a retry timer has fired, its task has not run yet (`fire`)
         self.retry_due: dict[str, float] = {}          # virtual time at which the documented retry of the last failure is due
@@ -398,7 +420,7 @@ class _Run:
                 await self.um.untrack_user(name, TrackingFlag(f))
             await self.after(m)
         elif kind == 'gate':
-            _, u, so, ro, m = op
+            _, u, so, ro, m = op[:5]
             if u < 0:       # "whoever is parked": lowest / highest index first, alternating with the op count
                 order = NAMES if len(self.lines) % 2 == 0 else NAMES[::-1]
                 u = next((NAMES.index(n) for n in order if self.gates.get(n)), 0)
@@ -421,7 +443,12 @@ class _Run:
                 self.outcome(name, ro)
                 gs[0][1].set_result(ro)
                 await self.after(m)
+            elif gs and so == 'failclose':
+                await self.close('WRITE_ERROR', op[5] if len(op) > 5 else None, via=gs[0])
+                return
             else:
+                if so == 'failclose':
+                    so = 'fail'
                 self.lines.append(f'send {u} {so} {m}')
                 if gs:
                     if gs[0][0] == 'A' and so == 'fail':
@@ -483,7 +510,7 @@ class _Run:
                 self.unsettled = True
                 self.fire_pending = True
         elif kind == 'close':
-            await self.close(op[1] if len(op) > 1 else None)
+            await self.close(op[1] if len(op) > 1 else None, op[2] if len(op) > 2 else None)
             return
         elif kind == 'login':
             from aioslsk.events import SessionInitializedEvent
@@ -653,7 +680,44 @@ class _Run:
         self.obs.append(pre + self.observe())
         self.checkpoint(m == '.')
 
-    async def close(self, reason=None):
+    async def _on_conn_state(self, event):
+        """the application's CLOSED listener: the tracking manager has been told, its listener has returned"""
+        from aioslsk.network.connection import ConnectionState
+        from aioslsk.user.model import TrackingFlag
+        calls, self._close_calls = self._close_calls, None
+        if calls is None or event.state != ConnectionState.CLOSED:
+            return
+        self._end_epoch()
+        # judged here: no flags, no state. A worker that was waiting for an answer may still be parked there for the one
+        # step its cancellation needs to arrive (an implementation that drops its entries without waiting): not a frame
+        for n in NAMES:
+            self.checkpoints[-1]['users'][n]['gates'] = ''
+        for kind, u, f in calls:
+            self.loop._vt += TICK
+            name = NAMES[u]
+            self.lines.append(f'{kind} {u} {f} +')
+            self.ref_call(name, kind == 'track', f)
+            self.app_bits |= f
+            if kind == 'track':
+                await self.um.track_user(name, TrackingFlag(f))
+            else:
+                await self.um.untrack_user(name, TrackingFlag(f))
+            self.sample_truth()
+            self.obs.append(self.observe())
+            self.checkpoint(False)
+
+    def _end_epoch(self):
+        # the epoch ends here: what is observed afterwards belongs to a fresh history
+        self._epoch_closed = True
+        self.tr_clean = False
+        self.checkpoint(True, after_close=True)
+        self.epochs.append(self.ep)
+        self.ep = self._new_epoch()
+        self._truth_prev = {n: (False, False, False) for n in NAMES}
+        self.sample_truth()
+        self.obs.append(self.observe())
+
+    async def close(self, reason=None, inside=None, via=None):
         from aioslsk.events import ConnectionStateChangedEvent, SessionDestroyedEvent
         from aioslsk.network.connection import CloseReason, ConnectionState, ServerConnection
         self.lines.append('close')
@@ -663,19 +727,44 @@ class _Run:
         self.retry_due.clear()
         event = ConnectionStateChangedEvent(conn, ConnectionState.CLOSED) if reason is None else \
             ConnectionStateChangedEvent(conn, ConnectionState.CLOSED, CloseReason[reason])
+        inside = [c for c in (inside or []) if c[0] in ('track', 'untrack')]
+        # A write of a tracking task that is in flight when CLOSED is reported: the real connection fails such a write
+        # when it shuts the transport, before it reports CLOSED; this stub keeps it parked, and the tracking manager
+        # (which takes a CLOSED that arrives during one of its writes for one caused by that write) does not wait for
+        # its workers then. The calls of the application's listener are made once the loop has settled in that case.
+        self._epoch_closed = False
+        self._close_calls = None
 
         async def closed():
+            # (whatever the previous op left runnable has run by now: a worker may have reached its write meanwhile)
+            write_parked = via is not None or any(k in 'AR' for gs in self.gates.values() for k, _ in gs)
+            if inside and not self.auto and (not write_parked or not self.defer):
+                self._close_calls = inside
+                self.undeferred = self.undeferred or write_parked
             await self.bus.emit(event)
             if self.session is not None:                 # client.py:376-382, the last CLOSED listener
                 session, self.session = self.session, None
                 self.lost_sessions += 1
                 await self.bus.emit(SessionDestroyedEvent(session))
+            done.append(True)
 
-        t = asyncio.ensure_future(closed())
+        done: list = []
+        if via is None:
+            t = asyncio.ensure_future(closed())
+        else:
+            # reported from inside the failing write of this worker (`_StubNet.send_server_messages`)
+            self._closing = closed
+            via[1].set_result('close')
+            t = None
         await simloop.settle()
         self.unsettled = False
         self.fire_pending = False
-        if not t.done():
+        if t is None and not done:
+            self.problems.append(('C15-close-hangs',
+                                  'a tracking write failed and closed the server connection: the handling of the CLOSED '
+                                  'event, which runs inside that write, never completes (the tracking task waits for itself)'))
+            self.session = None
+        elif t is not None and not t.done():
             self.problems.append(('C15-close-hangs',
                                   'handling of the server CLOSED event never completes (a tracking task '
                                   'survived its cancellation)'))
@@ -683,13 +772,14 @@ class _Run:
             await simloop.settle()
             self.session = None
         self.tr_clean = False
-        # the epoch ends here: what is observed afterwards belongs to a fresh history
-        self.checkpoint(True, after_close=True)
-        self.epochs.append(self.ep)
-        self.ep = self._new_epoch()
-        self._truth_prev = {n: (False, False, False) for n in NAMES}
-        self.sample_truth()
-        self.obs.append(self.observe())
+        if self._epoch_closed:
+            # the application's listener made its calls inside the notification; the loop has settled since
+            await self.do(['adv', 0])
+        else:
+            self._close_calls = None
+            self._end_epoch()
+            for i, (kind, u, f) in enumerate(inside):
+                await self.do([kind, u, f, '.' if i == len(inside) - 1 else '+'])
 
     async def quiesce(self):
         """(free-running cases) everything parked is answered "exists", pending retries come due, both management
@@ -793,6 +883,9 @@ class _StubNet(_StandIn):
             run.dead_wait.discard(msg.username)
             run.attempt(msg.username, kind)
             ok = await run.park(msg.username, kind)
+            if ok == 'close':
+                await run._closing()
+                raise ConnectionWriteError('scripted write error, the connection was closed')
             if not ok:
                 raise ConnectionWriteError('scripted send failure')
 
@@ -849,7 +942,8 @@ async def _run_case_async(loop, case: dict) -> dict:
         del r.lines[r.model_cut:]
         del r.obs[r.model_cut:]
     return {'lines': [] if r.auto else r.lines, 'obs': r.obs, 'epochs': r.epochs, 'checkpoints': r.checkpoints,
-            'problems': r.problems, 'loop_exceptions': loop.exceptions[:3], 'auto': r.auto, 'world': r.world}
+            'problems': r.problems, 'loop_exceptions': loop.exceptions[:3], 'auto': r.auto, 'world': r.world,
+            'undeferred': r.undeferred}
 
 
 def _run_impl(case: dict) -> dict:
@@ -1008,10 +1102,19 @@ def _monitor_truth(case: dict, res: dict, flag):
                          required={'max_add': ep['ups'][n], 'max_remove': ep['downs'][n]})
 
 
+KNOWN_LOST_IN_CLOSED = 'C15-call-lost-in-closed-raised-by-tracking-write'
+LOST_IN_CLOSED = ('C15-not-dropped-on-close', 'C15-flags-not-fold-of-calls', 'C15-frames-not-edges', 'C15-state-wrong')
+
+
 def _monitor(case: dict, res: dict) -> list[Violation]:
     vs: list[Violation] = []
 
     def flag(sig, what, observed=None, required=None):
+        if res.get('undeferred') and sig in LOST_IN_CLOSED:
+            # (`defer: false`, the witness of the known finding only) calls were made inside a CLOSED notification that a
+            # tracking write raised: entries that outlive that notification, and the calls lost on them, are that finding
+            what = f'{KNOWN_LOST_IN_CLOSED}: {what}'
+            sig = KNOWN_LOST_IN_CLOSED
         vs.append(Violation(sig, what, case, observed=observed, required=required))
 
     for sig, what in res['problems']:
@@ -1136,7 +1239,8 @@ def _mod(rng, weights=(5, 2, 3)):
 
 
 def _gate(rng, u, m=None):
-    so = 'ok' if rng.random() < 0.78 else 'fail'
+    x = rng.random()
+    so = 'ok' if x < 0.78 else 'fail' if x < 0.96 else 'failclose'
     ro = rng.choices(['exists', 'notexists', 'error', 'silence'], weights=[5, 2, 1, 2])[0]
     return ['gate', u, so, ro, m if m is not None else rng.choices(['.', '!'], weights=[3, 2])[0]]
 
@@ -1150,6 +1254,23 @@ REASONS = ['UNKNOWN', 'REQUESTED', 'READ_ERROR', 'WRITE_ERROR', 'TIMEOUT', 'EOF'
 
 def _close(rng):
     return ['close'] if rng.random() < 0.5 else ['close', rng.choice(REASONS)]
+
+
+def _close_calls(rng, nusers=2, believed=(0, 0), u=None):
+    """what the application's own CLOSED listener asks for: mostly about users that were tracked when the connection went"""
+    held = [v for v in range(nusers) if believed[v]]
+    if u is None:
+        u = rng.choice(held) if held and rng.random() < 0.8 else rng.randrange(nusers)
+    y = rng.random()
+    if y < 0.55:
+        w = [['track', u, _flag(rng)]]
+    elif y < 0.75:
+        w = [['untrack', u, believed[u] or 7], ['track', u, _flag(rng)]]
+    elif y < 0.85:
+        w = [['untrack', u, believed[u] or _flag(rng)]]
+    else:
+        w = [['track', u, _flag(rng)], ['track', (u + 1) % nusers, _flag(rng)]]
+    return w
 
 
 def _gen_random(rng: random.Random) -> list:
@@ -1183,8 +1304,16 @@ def _gen_random(rng: random.Random) -> list:
         elif x < 0.95:
             ops.append(['fire', u])
         else:
-            ops.append(['close'])
-            believed = [0, 0]
+            if rng.random() < 0.4:
+                w = _close_calls(rng, nusers, believed)
+                ops.append(['close', None, w])
+                believed = [0, 0]
+                for k, v, f in w:
+                    believed[v] = (believed[v] | f) if k == 'track' else (believed[v] & ~f)
+                calls += len(w)
+            else:
+                ops.append(['close'])
+                believed = [0, 0]
     for _ in range(rng.randint(0, 4)):
         ops.append(_gate(rng, -1) if rng.random() < 0.6 else ['adv', rng.choice(ADV)])
     return ops
@@ -1298,8 +1427,61 @@ def _tmpl_retry_window(rng):
     return ops
 
 
+def _tmpl_close_window(rng):
+    """the application's CLOSED listener asks for a user in the step in which the tracking manager's listener returned —
+    after a history with failed writes / failed attempts / retries called off (whatever the code keeps count of across
+    requests must be back where it was), with the user's worker idle, waiting for an answer, or waiting for its retry"""
+    u = rng.randrange(2)
+    v = 1 - u if rng.random() < 0.6 else u
+    f = _flag(rng)
+    ops = []
+    # an earlier request that went wrong
+    y = rng.random()
+    if y < 0.8:
+        ops += [['track', v, _flag(rng), '.']]
+        how = rng.random()
+        if how < 0.6:
+            ops += [['gate', v, 'fail', 'exists', '.']]
+        else:
+            ops += _fail(rng, v)
+        z = rng.random()
+        if z < 0.4:                                # the application changes its mind: the retry is called off
+            ops += [['untrack', v, 7, '.'], ['gate', v, rng.choice(['ok', 'ok', 'fail']), 'exists', '.']]
+        elif z < 0.7:                              # the retry comes and succeeds
+            ops += [['adv', rng.choice([10, 600, 601])], _good(v), _good(v)]
+            if rng.random() < 0.5:
+                ops += [['untrack', v, 7, '.'], ['gate', v, rng.choice(['ok', 'fail']), 'exists', '.']]
+        # else: the retry is still pending when the connection goes
+    # the user the listener will ask about
+    ops += [['track', u, f, '.']]
+    z = rng.random()
+    if z < 0.6:
+        ops += [_good(u), _good(u)]                # tracked, worker idle
+    elif z < 0.75:
+        ops += [_good(u)]                          # worker waits for the answer
+    elif z < 0.9:
+        ops += [_good(u), ['gate', u, 'ok', rng.choice(['notexists', 'error', 'silence']), '.']]     # waits for its retry
+    # else: its write is in flight
+    believed = [0, 0]
+    believed[u] = f
+    if rng.random() < 0.3:
+        # the connection loss is noticed by a write of the tracking code itself: CLOSED is reported inside that write
+        w = u if z >= 0.9 else 1 - u
+        if w != u:
+            ops.append(['track', w, _flag(rng), '.'])
+        ops.append(['gate', w, 'failclose', 'exists', '.', _close_calls(rng, 2, believed, u)])
+    else:
+        ops.append(['close', None if rng.random() < 0.5 else rng.choice(REASONS), _close_calls(rng, 2, believed, u)])
+    for _ in range(rng.randint(0, 4)):
+        ops.append(_good(u) if rng.random() < 0.7 else _gate(rng, -1))
+    if rng.random() < 0.4:                         # and once more: a second connection loss
+        ops += [['track', u, _flag(rng), '.'], _good(u), _good(u),
+                ['close', None, _close_calls(rng, 2, [7, 7], u)], _good(u), _good(u)]
+    return ops
+
+
 TEMPLATES = [_tmpl_exit_window, _tmpl_noop_exit, _tmpl_close_in_cancel, _tmpl_retry, _tmpl_retry_window,
-             _tmpl_retry_window]
+             _tmpl_retry_window, _tmpl_close_window, _tmpl_close_window]
 
 
 # -- the world: session, friends list, transfers (scripted: every step of an owner is an op of the schedule) --------
@@ -1738,6 +1920,17 @@ WITNESS_CLEAR_ALL_AUTO = {'ops': [['login'], ['tadd', 0, 'q', '.'], ['tadd', 0, 
                           'auto': True, 'offline': 'drop', 'peer': 'hang', 'kind': 'witness-clear-all-auto'}
 
 
+# KNOWN FINDING (16670c8): u0 is tracked; the AddUser write for u1 fails and closes the server connection from inside the
+# write; the application's CLOSED listener asks for u0 again inside that notification — the tracking manager has not waited
+# for its cancelled workers (it would wait for itself), u0's entry is still there, the request lands on the queue of a
+# worker that is already cancelled and is lost. `defer: false` makes the harness issue the calls there (generated cases
+# issue them after the loop has settled in this situation)
+WITNESS_LOST_IN_CLOSED = {'ops': [['track', 0, 4, '.'], ['gate', 0, 'ok', 'exists', '.'], ['gate', 0, 'ok', 'exists', '.'],
+                                  ['track', 1, 1, '.'], ['gate', 1, 'failclose', 'exists', '.', [['track', 0, 1]]],
+                                  ['gate', 0, 'ok', 'exists', '.'], ['gate', 0, 'ok', 'exists', '.']],
+                          'defer': False, 'kind': 'witness-call-lost-in-closed-raised-by-tracking-write'}
+
+
 def _is_nontrivial(case: dict, res: dict) -> bool:
     """at least one AddUser attempt, and at least one call issued while that user's worker was busy (parked
     in a network call) or had not run since the previous op (modifiers + / !) — or (world cases) an AddUser attempt
@@ -1773,11 +1966,14 @@ class C15(Property):
     driver_module = 'AioslskVerif.Driver.C15'
     rule = ('schedules derived from VERIF_SEED. (1) 70 %: <= 8 track/untrack calls with any non-empty flag set for 1..2 '
             'users, each issued settled / one loop iteration after / back-to-back with the previous op, interleaved with '
-            'releases of the worker\'s pending network call (send ok|failure, exists|not-exists|error|silence), '
+            'releases of the worker\'s pending network call (send ok|failure|failure that closes the connection from inside '
+            'the write, exists|not-exists|error|silence), '
             'virtual-time advances around the 10 s / 600 s delays, server closes and `fire` (virtual time moves to the '
             'instant a retry is due and the timer fires, the following back-to-back calls land in the one loop iteration '
             'before the retry task puts its request); a third of them from scenario templates (exit window, no-op exit, '
-            'close during retry cancellation, retries, calls inside the retry window) with random prefixes. '
+            'close during retry cancellation, retries, calls inside the retry window, calls made by the application\'s own '
+            'CLOSED listener right after the tracking manager\'s returned — after histories with failed writes) with random '
+            'prefixes. '
             '(2) 22 % scripted world: the same plus the owners of the reasons as ops of the schedule — logins, friends-list '
             'changes, transfers of the REAL TransferManager added / aborted / failed / queued again / removed through its '
             'public methods, its manage_user_tracking() cycles, server closes with session loss and new sessions; '
@@ -1796,7 +1992,13 @@ class C15(Property):
     assumptions = [
         'calls carry a non-empty TrackingFlag (the generator never issues TrackingFlag(0); since 040857a the retry request '
         'is known by its identity, such a call is a no-op and the Lean theorems cover it)',
-        'no call is issued while the CLOSED event is being dispatched (harness and model treat the close as one step)',
+        'the close is one step of harness and model; calls made INSIDE the CLOSED notification are those of a listener '
+        'registered after the managers\' (`close` with calls: made in the step in which the tracking manager\'s listener '
+        'returned). When CLOSED is reported while a write of a tracking task is in flight — in particular from inside a failing '
+        'write (`failclose`) — the tracking manager does not wait for its cancelled workers (it would wait for itself) and '
+        'such calls are made only after the loop has settled: a call made inside THAT notification for a user whose worker '
+        'was alive is lost on 16670c8: known finding `C15-call-lost-in-closed-raised-by-tracking-write`, whose witness '
+        '(`defer: false`) is replayed every run',
         'Network is replaced by a stub with the two coroutines the tracking code awaits (and, for the transfer manager, a '
         'peer side on which downloads are queued remotely at once — or, free-running with `peer: hang`, never — and nothing '
         'else is answered); listeners of the tracking events do not suspend (the suspension points of the worker are '
@@ -1876,6 +2078,13 @@ class C15(Property):
                     and (r['lines'][j - 1].startswith('fire') or (r['lines'][j - 1].split()[0] in ('track', 'untrack')
                                                                    and r['lines'][j - 1].endswith('+')
                                                                    and any(x.startswith('fire') for x in r['lines'][max(0, j - 5):j])))))
+            ncw = sum(1 for j, ln in enumerate(r['lines']) if ln == 'close' and j + 1 < len(r['lines'])
+                      and r['lines'][j + 1].split()[0] in ('track', 'untrack') and r['lines'][j + 1].endswith('+'))
+            if ncw:
+                res.count('close-notifications-with-calls-inside', ncw)
+            nfc = sum(1 for op in c['ops'] if op[0] == 'gate' and op[2] == 'failclose')
+            if nfc:
+                res.count('gate:failclose-requested', nfc)
             nrm = sum(1 for ln in r['lines'] if ln.startswith('trmp ') and ln.split()[2] not in ('123', '-'))
             if nrm:
                 res.count('removal-steps-apart', nrm)
@@ -1911,7 +2120,8 @@ class C15(Property):
         return _monitor(case, r)
 
     def known_witnesses(self):
-        return []
+        # (replayed only while known_findings.json lists the signature)
+        return [(KNOWN_LOST_IN_CLOSED, WITNESS_LOST_IN_CLOSED)]
 
 
 PROPERTY = C15()
